@@ -452,6 +452,9 @@ def daemon_history(b, home, i, res):
                 res.counters.inc("daemon_messages_exact_after_hup")
             if len(rcpts) > 1 and exp[1] and exp[2]:
                 res.counters.inc("daemon_messages_split_over_both_channels")
+                res.sample({"daemon_message": "%d recipients -> %d local + %d remote records%s" % (
+                    len(rcpts), len(exp[1]), len(exp[2]), ", preprocessed after SIGHUP" if stage else ""),
+                    "first_local": core.hx(got[1][0]), "first_remote": core.hx(got[2][0])}, cap=1)
             continue
         if sorted(got[1] + got[2]) == sorted(exp[1] + exp[2]):
             if sorted(got[1]) == sorted(exp[1]):
@@ -510,9 +513,11 @@ def main(tier):
     nhist = core.scaled(96 if tier == "quick" else 1600)
     res = core.pmap(harness_worker, [(b.dir, hbin, lo, hi, naddr, nverp) for lo, hi in core.chunks(ncfg, core.JOBS * 2)],
                     timeout=3600)
+    res.samples = res.samples[:6]
     notes = []
     if proc_syscall_usable():
         dres = core.pmap(daemon_worker, [(b.dir, lo, hi) for lo, hi in core.chunks(nhist, core.JOBS)], timeout=3600)
+        dres.samples = dres.samples[:3]
         res.merge(dres)
     else:
         notes.append("whole-binary piece skipped: /proc/<pid>/syscall not readable here, idleness of the daemon cannot be observed soundly")
